@@ -449,6 +449,12 @@ import rs2v_accept  # noqa: E402
 GENERATORS["AcceptConsts.v"] = lambda: rs2v_accept.gen_accept_consts(read, strip_comments, match_brace, protocol_versions, TieError)
 
 
+# ---------------------------------------------------------------- C19: client-side folds (tools/rs2v_clientfold.py)
+import rs2v_clientfold  # noqa: E402
+
+GENERATORS["ClientFoldTie.v"] = lambda: rs2v_clientfold.gen_clientfold_tie(read, strip_comments, match_brace, TieError)
+
+
 # ---------------------------------------------------------------- C18/C17: schema grammar tokens (tools/rs2v_schema.py)
 
 def gen_grammar_tokens():
